@@ -1,7 +1,7 @@
 """C06 - memory reads/writes exact, complete, never wedge the subsystem."""
 import ast
 
-from ..astutil import dotted, method_call
+from ..astutil import dispatch_table, dotted, method_call
 from ..cfg import cfg_of, fact_key, norm, walk_own
 from ..consteval import UNKNOWN, fold_in
 from ..dataflow import must_facts
@@ -27,7 +27,7 @@ ASSUMPTIONS = [
     'objects other than Memory (requests, packets) do not mutate Memory._write_requests/_read_requests',
     'user progress callbacks and link drivers raising inside the lock are outside the property\'s quantifier',
 ]
-FLOORS = {'R1': 4, 'R2': 6, 'R3': 6, 'R4': 10, 'R5': 5, 'R6': 4, 'R7': 2, 'R8': 1, 'R9': 4, 'R10': 15}
+FLOORS = {'R1': 4, 'R2': 6, 'R3': 6, 'R4': 12, 'R5': 5, 'R6': 4, 'R7': 2, 'R8': 1, 'R9': 4, 'R10': 15}
 
 
 def _const(func, node):
@@ -217,6 +217,20 @@ def check(ctx):
             ctx.inst('R4', f, 'completion:pop=%d,ok=%d,fail=%d,status0=%s' % (npop, ns, nf, st0), ok,
                      'on each path: request removed iff exactly one completion callback, success only for status 0, failure only otherwise; '
                      'path conditions %s' % conds[-4:])
+        # success only when the request object says the transfer is complete: add_data / write_done answer True (done), False (more to
+        # come) or None (reply for another address): the success path must test plain truth, `is False` / `is not False` let None through
+        from ..cfg import implied as _implied
+        donefn = 'add_data' if fname == '_handle_chan_read' else 'write_done'
+        verdicts = set()
+        for p in ps:
+            if p.outcome[0] not in ('fall', 'return') or not p.calls(lambda c: norm(c.func) == okcb):
+                continue
+            fs = [fct for t_, pol_, o_ in p.conds if isinstance(t_, ast.expr) for fct in _implied(t_, pol_)]
+            truthy = [fct for fct in fs if fct.pol and ((isinstance(fct.node, ast.Call) and method_call(fct.node, donefn)) or
+                                                     (fct.op in ('==', 'is') and 'True' in (norm(fct.left), norm(fct.right)) and donefn in fct.text))]
+            verdicts.add(bool(truthy))
+        ctx.inst('R4', f, 'success-needs-done', verdicts == {True}, 'the success callback runs only on paths where %s() returned a true value (None = foreign address, '
+                 'False = more chunks to come); per-path verdicts %s' % (donefn, sorted(verdicts)))
         # callbacks carry the request's own memory and address
         for c in [c for c in walk_own(f.node) if isinstance(c, ast.Call) and norm(c.func) in (okcb, failcb)]:
             a = [norm(x) for x in c.args[:2]]
@@ -381,11 +395,10 @@ def check(ctx):
     np_ = mem.method('_new_packet_cb')
     g = cfg_of(np_)
     table = {'CHAN_READ': '_handle_chan_read', 'CHAN_WRITE': '_handle_chan_write', 'CHAN_INFO': '_handle_chan_info'}
+    dt = dispatch_table(np_, 'chan')
     for ch, h in table.items():
-        sites = g.find(lambda n: method_call(n, h))
-        ok = len(sites) == 1 and fact_key('chan == %s' % ch, True) in g.fact_keys_at(sites[0][0]) and \
-            [norm(a) for a in sites[0][1].args] == ['cmd', 'payload']
-        ctx.inst('R9', np_, 'dispatch:' + ch, ok, '%s replies must go to %s(cmd, payload)' % (ch, h))
+        ok = dt.get(ch) == ('self.' + h, ['cmd', 'payload'])
+        ctx.inst('R9', np_, 'dispatch:' + ch, ok, '%s replies must go to %s(cmd, payload); dispatch table %s' % (ch, h, dt))
     ds = {norm(s.targets[0]): norm(s.value) for s in walk_own(np_.node) if isinstance(s, ast.Assign)}
     pk = np_.params[1]
     ctx.inst('R9', np_, 'split', ds.get('cmd') == '%s.data[0]' % pk and ds.get('payload') == '%s.data[1:]' % pk and ds.get('chan') == '%s.channel' % pk,
